@@ -5,6 +5,7 @@ import (
 	"errors"
 	"io"
 	"reflect"
+	"slices"
 	"sync"
 	"sync/atomic"
 )
@@ -247,7 +248,12 @@ func (s *Serde) Register(id int, v any, opts ...EncodingOpt) {
 	// If this value was already registered, we are overriding the
 	// previous registration and need to delete the previous type.
 	if at.exists {
-		delete(dupTypes, at.typeof)
+		// Only if the previous occupant's type still maps to THIS slot:
+		// the type may have been re-registered for another id or index
+		// since, and that registration must keep encoding.
+		if cur, ok := dupTypes[at.typeof]; !ok || (cur.id == at.id && slices.Equal(cur.index, at.index)) {
+			delete(dupTypes, at.typeof)
+		}
 	}
 
 	// Now, we initialize the end node.
